@@ -19,6 +19,7 @@ theorem applyEv_errs (st : LState) (ev : Ev) : ∃ more, (applyEv st ev).errs = 
       · exact ⟨_, rfl⟩
       · exact ⟨[], by simp⟩
   | fileErr d => exact ⟨_, rfl⟩
+  | syntaxErr d => exact ⟨_, rfl⟩
 
 theorem foldl_applyEv_errs (evs : List Ev) : ∀ st, ∃ more, (evs.foldl applyEv st).errs = st.errs ++ more := by
   induction evs with
@@ -54,6 +55,7 @@ theorem applyEv_found (st : LState) (ev : Ev) (x : Str) (h : (findNode st.nodes 
       · exact h
       · exact findNode_append h
   | fileErr d => exact h
+  | syntaxErr d => exact h
 
 theorem foldl_applyEv_found (evs : List Ev) : ∀ (st : LState) (x : Str), (findNode st.nodes x).isSome →
     (findNode (evs.foldl applyEv st).nodes x).isSome := by
@@ -86,11 +88,15 @@ theorem register_found_err (st : LState) (m : Node) (h : (findNode st.nodes m.na
 
 /-- **Unnamed rules, empty names and duplicated names are reported** by the registration pass. -/
 theorem registerAll_reports (evs : List Ev)
-    (h : (∃ d, Ev.fileErr d ∈ evs) ∨ (∃ n, Ev.reg n ∈ evs ∧ n.name = []) ∨
+    (h : ((∃ d, Ev.fileErr d ∈ evs) ∨ (∃ d, Ev.syntaxErr d ∈ evs)) ∨ (∃ n, Ev.reg n ∈ evs ∧ n.name = []) ∨
       (∃ a n b m c, evs = a ++ [Ev.reg n] ++ b ++ [Ev.reg m] ++ c ∧ n.name = m.name)) :
     (registerAll evs).errs ≠ [] := by
   unfold registerAll
-  rcases h with ⟨d, hd⟩ | ⟨n, hn, he⟩ | ⟨a, n, b, m, c, rfl, hnm⟩
+  rcases h with (⟨d, hd⟩ | ⟨d, hd⟩) | ⟨n, hn, he⟩ | ⟨a, n, b, m, c, rfl, hnm⟩
+  · obtain ⟨a, c, rfl⟩ := List.append_of_mem hd
+    rw [List.foldl_append, List.foldl_cons]
+    apply foldl_applyEv_errs_ne
+    simp [applyEv]
   · obtain ⟨a, c, rfl⟩ := List.append_of_mem hd
     rw [List.foldl_append, List.foldl_cons]
     apply foldl_applyEv_errs_ne
